@@ -42,8 +42,8 @@ static u8 g_raw[16];      /* DSP memory is not reached by these obligations (DMA
 static inline bool wf_mmio(const VMMIO *m)
 {
     if (!(m->dma->active_channel < 8)) return 0;
-    for (int i = 0; i < 2; i++) if (!wf_timer(&m->timer->e[i]) || !wf_btdmp(&m->btdmp->e[i])) return 0;
-    return 1;
+    for (int i = 0; i < 2; i++) if (!wf_btdmp(&m->btdmp->e[i])) return 0;
+    return 1;       /* the timer's count mode is NOT part of it: modes 4..7 are writable and make Timer::Tick / Restart abort deliberately (ASSERT), a legal exit */
 }
 #define MMIO_RIG() \
     NONDET(MemoryInterfaceUnit, miu); NONDET(ICU, icu); NONDET(Apbp_Impl, ai_cpu); NONDET(Apbp_Impl, ai_dsp); NONDET(arr_Timer_2, timer); NONDET(Dma, dma); NONDET(Ahbm, ahbm); NONDET(arr_Btdmp_2, btdmp); \
@@ -155,6 +155,6 @@ HARNESS(h_mmio_safe)
     REGION_HOOK();
     u16 r = 0;
     if (rd) r = vmmio_read(&m, a); else vmmio_write(&m, a, v);
-    CHECK(wf_mmio(&m), "register access keeps every peripheral index and width invariant (DMA channel select < 8, timer mode, FIFO bounds)");
+    CHECK(wf_mmio(&m), "register access keeps every peripheral index and width invariant (DMA channel select < 8, FIFO bounds and flags)");
     OUT(r); CANARY();
 }
